@@ -14,8 +14,8 @@ CONSTANTS
  MaxConns = 1
  MaxHeld = 0
  MaxUsed = 2
- AppKinds = {"puback", "pubrec"}
- PeerKinds = {"publish"}
+ AppKinds = {"puback", "pubcomp", "pubrec"}
+ PeerKinds = {"publish", "pubrel"}
  QosSet = {1, 2}
  Topics = {"t1"}
  Aliases = {0}
@@ -53,4 +53,5 @@ CONSTANTS
  Regulate_ = FALSE
  OptFlips = {}
  FreeIdSends = FALSE
+ LateSends = FALSE
  Msgs = {"m1"}
